@@ -61,13 +61,14 @@ Section Camt.
   Definition unknown_payee : str := [117;110;107;110;111;119;110;32;112;97;121;101;101]%N.   (* "unknown payee" *)
 
   (* what `import` takes from the fragment for one record: Txn::new(.., payee or "unknown payee"),
-     code_option(AcctSvcrRef) - the code a rule captured is not used -, dest_account_option,
+     code_option(fragment.code.or(AcctSvcrRef)) - a code a rule captured wins over the statement's
+     reference (/repo d2eb1b8; an entry without TxDtls has no reference) -, dest_account_option,
      clear_state(Pending) unless cleared *)
   Record camt_view := { cv_payee : str; cv_code : option str; cv_dest : option str; cv_pending : bool }.
   Definition camt_record_view (rules : list (rule P)) (e : camt_entity) : camt_view :=
     let f := camt_fragment rules e in
     {| cv_payee := one_line (match g_payee f with Some p => p | None => unknown_payee end);
-       cv_code := option_map one_line (ce_reference e);
+       cv_code := option_map one_line (option_or (g_code f) (ce_reference e));
        cv_dest := g_account f;
        cv_pending := negb (g_cleared f) |}.
 End Camt.
